@@ -13,7 +13,17 @@ Sub-checks
   fock_nongauss   random low-photon kets and two-term mixtures as BaseFockState (ket data and tensor data)
   bosonic_cat     a cat state (four Gaussians with complex weights and means, typed from the cat formula),
                   alone or next to a Gaussian mode, as BaseBosonicState against the exact Fock ket
+  bosonic_mix     a statistical mixture of 2..3 different Gaussian states (own covariance, means and inter-mode correlations per
+                  weight, 1..3 modes) as one BaseBosonicState against the weighted phase-space formulas and the weighted sum of
+                  the thewalrus tensors (the per-weight loops of the class see terms that differ in every ingredient)
+  backend_state_order  backend.state(modes=..) / eng.run(prog, modes=..) on the gaussian, the bosonic and a fock backend per case:
+                  subset / order (a 3-/4-cycle in every case), a register with a deleted mode, an int for modes, two program
+                  segments on one engine, repeated requests (a request does not change the simulator)
   samples         utils.post_processing on generated integer / float sample arrays against numpy formulas
+
+Axes shared by the direct-state sub-checks: the GLOBAL sf.hbar is changed between construction and the method calls in 1/3 of the
+cases (a state answers in "the value of hbar used in the generation of the state"); int instead of [int] for displacement / squeezing /
+reduced_*; the documented defaults (cutoff=10, d=0, k=0, A=None).
 """
 from __future__ import annotations
 
@@ -31,7 +41,8 @@ RULE = ("Hypothesis-generated states built directly as state objects (Gaussian: 
         "cat states) together with method arguments (mode subset and order, angle, photon pattern, alpha list, grid, "
         "A/d/k of a quadrature polynomial, a probe state); a case is non-trivial when the state has >= 2 modes with "
         "non-zero inter-mode correlation and a strict subset or a non-identity order of modes is requested (tri), "
-        "resp. the state is not a vacuum/product of number states (fock), resp. always (cat, samples); distinct = distinct JSON")
+        "resp. the state is not a vacuum/product of number states (fock), resp. always (cat, samples), resp. the terms of the mixture differ in "
+        "covariance or means (mix), resp. >= 2 modes requested or a mode deleted (backend_state_order); distinct = distinct JSON")
 ASSUMPTIONS = [
     "thewalrus.quantum.density_matrix / state_vector are trusted as the Fock representation of a Gaussian state "
     "given (x..,p..)-ordered moments (layout rho[i0,j0,i1,j1..] verified against density_matrix_element at start-up)",
@@ -46,6 +57,11 @@ ASSUMPTIONS = [
     "documented preconditions respected: Gaussian number_expectation <= 2 modes; sorted modes for reduced_*; "
     "squeezing()/is_squeezed() only judged on modes whose reduced state is pure and either exactly vacuum or "
     "squeezed by r >= 0.02",
+    "a state object answers in the hbar it was created with (BaseState.hbar: 'the value of hbar used in the generation of the state'): the global "
+    "sf.hbar is set to another value after construction in 1/3 of the cases and the oracles keep using the construction value",
+    "backend_state_order: deleting a mode is a partial trace, so the state after Del (and gates on the surviving modes) is compared with the same "
+    "circuit without the Del; `modes` indexes the remaining modes (gaussian, fock: comment in GaussianBackend.state); three input classes are withheld as "
+    "AUDIT-FINDING (gaussian state(modes=int); bosonic subset after Del; bosonic second eng.run restarts from the vacuum)",
     "x_quad_values / p_quad_values integrate the Wigner function with the library's own Simpson rule; grids of +-6.5 sigma with "
     "step <= 1/5 of the marginal and 1/4 of the conditional width (cat: sigma/20): tolerance 3e-3 of the peak of the pdf",
 ]
@@ -54,7 +70,8 @@ REQUIRED_LABELS = {"all": ["rep:gaussian", "rep:bosonic", "rep:fock", "rep:fock_
                            "m:number_expectation", "m:wigner", "m:poly_quad_expectation", "m:fock_prob",
                            "m:fidelity_coherent", "m:mean_photon", "m:quad_expectation", "m:squeezing",
                            "hbar:0.7", "hbar:2.0", "hbar:3.1", "cat", "samples", "non_involutive_order", "backend_state:fock_pure",
-                           "backend_state:fock_mixed", "backend_state:gaussian", "backend_state:bosonic"]}
+                           "backend_state:fock_mixed", "backend_state:gaussian", "backend_state:bosonic",
+                           "mix", "mix_distinct_covs", "mix_correlated", "int_mode_arg", "default_cutoff", "global_hbar_changed_after_construction"]}
 
 HBARS = [2.0, 0.7, 3.1]
 TIGHT = 1e-8
@@ -690,6 +707,10 @@ def check_ps_object(pr, o, a, R):
             _cmp("bosonic.reduced_bosonic.weights", got[0], o.w, 1e-12)
             _cmp("bosonic.reduced_bosonic.means", got[1], o.mus[:, i], 1e-12, "reduced_bosonic(%r)[1]" % (modes,))
             _cmp("bosonic.reduced_bosonic.covs", got[2], o.Vs[:, i][:, :, i], 1e-12, "reduced_bosonic(%r)[2]" % (modes,))
+        g1 = pr.call("reduced_bosonic", int(modes[-1]))  # "modes (int of Sequence[int])"
+        i = [modes[-1], modes[-1] + n]
+        _cmp("bosonic.reduced_bosonic.int.means", g1[1], o.mus[:, i], 1e-12, "reduced_bosonic(%d)[1]" % modes[-1])
+        _cmp("bosonic.reduced_bosonic.int.covs", g1[2], o.Vs[:, i][:, :, i], 1e-12, "reduced_bosonic(%d)[2]" % modes[-1])
 
     # ---- displacement -------------------------------------------------------------------------
     exp = o.alpha(modes)
@@ -702,6 +723,9 @@ def check_ps_object(pr, o, a, R):
                         "got %s expected %s" % (modes, srt, _short(np.asarray(got)), _short(exp))) from None
         raise
     _cmp(nm + ".displacement.default", pr.call("displacement"), o.alpha(range(n)), TIGHT)
+    # "modes (int or Sequence[int])": a bare int is one mode
+    _cmp(nm + ".displacement.int", pr.call("displacement", int(modes[-1])), o.alpha([modes[-1]]), TIGHT, "displacement(%d)" % modes[-1])
+    pr.labels.add("int_mode_arg")
     R["displacement"] = np.asarray(got) if np.asarray(got).shape == exp.shape else exp
 
     # ---- squeezing / is_coherent / is_squeezed (Gaussian class only) ---------------------------------
@@ -791,6 +815,16 @@ def check_ps_object(pr, o, a, R):
     if len(modes) == 1 and not (rep == "B" and _complex_means(o)):
         gi = np.asarray(pr.call("reduced_dm", int(modes[0]), cutoff=D))
         _norm_or_not(nm + ".reduced_dm.int", gi, fx["red"](modes), fx["tol"], "reduced_dm(%d)" % modes[0])
+    if "red10" in fx and not (rep == "B" and _complex_means(o)):  # "cutoff (int): ... (default value is 10)"
+        ml = int(modes[-1])
+        gi = np.asarray(pr.call("reduced_dm", [ml]))
+        _norm_or_not(nm + ".reduced_dm.default_cutoff", gi, fx["red10"](ml), fx["tol"], "reduced_dm([%d]) without cutoff" % ml)
+        if sum(pat) < 10:
+            gp = _real(pr.call("fock_prob", list(pat)), nm + ".fock_prob")
+            _cmp(nm + ".fock_prob.default_cutoff", gp, fx["prob_pat"], fx["tol"], "fock_prob(%r) without cutoff" % (pat,))
+        if rep == "G" and n == 1:
+            _cmp("gaussian.all_fock_probs.default_cutoff", pr.call("all_fock_probs"), np.real(np.diag(fx["red10"](0))), TIGHT, "all_fock_probs() without cutoff")
+        pr.labels.add("default_cutoff")
     cs = a["cs"]
     got = np.asarray(pr.call("dm", cutoff=cs))
     exp = fx["full_small"]
@@ -876,6 +910,11 @@ def check_ps_object(pr, o, a, R):
         dd[m0] = 1.0
         got = _real(pr.call("poly_quad_expectation", None, dd, 0, phi=a["phi"]), "gaussian.poly_quad_expectation")
         _cmp("gaussian.poly_quad_vs_quad_expectation", got, o.quad(m0, a["phi"]), TIGHT, "poly_quad_expectation(None, e_x%d, phi) vs quad_expectation" % m0)
+        # documented defaults: d = zero vector, k = 0, phi = 0; a constant polynomial has mean k and no variance
+        got = _real(pr.call("poly_quad_expectation", a["A"].copy()), "gaussian.poly_quad_expectation")
+        _cmp("gaussian.poly_quad_expectation.defaults", got, o.poly(a["A"], None, 0.0) if np.any(a["A"]) else (0.0, 0.0), TIGHT, "poly_quad_expectation(A)")
+        got = _real(pr.call("poly_quad_expectation", None, None, a["k0"], phi=a["pq_phi"]), "gaussian.poly_quad_expectation")
+        _cmp("gaussian.poly_quad_expectation.constant", got, (a["k0"], 0.0), TIGHT, "poly_quad_expectation(None, None, k)")
     else:
         pr.rejects("poly_quad_expectation", a["A"].copy(), exc=NotImplementedError)
 
@@ -958,6 +997,9 @@ def _check_squeezing(pr, o, modes):
     al = pr.call("squeezing")
     if len(al) != o.n:
         raise _Fail("gaussian.squeezing.length", "squeezing() returned %d entries for %d modes" % (len(al), o.n))
+    one = pr.call("squeezing", int(modes[-1]))  # "modes (int or Sequence[int])"
+    if len(one) != 1 or not _same(np.array(one[0], float), np.array(sq[-1], float)):
+        raise _Fail("gaussian.squeezing.int", "squeezing(%d) = %r, squeezing(%r)[-1] = %r" % (modes[-1], one, modes, sq[-1]))
 
 
 SIG_CPLX = "bosonic_fock_basis_wrong_for_complex_means"
@@ -1090,6 +1132,9 @@ def check_fock_object(pr, rho, n, h, a, R):
             dd[m0] = 1.0
             got = _real(pr.call("poly_quad_expectation", None, dd, 0, phi=a["phi"]), "fock.poly_quad_expectation")
             _cmp("fock.poly_quad_vs_quad_expectation.mean", got[0], fk_quad(rho, n, m0, a["phi"], h)[0], T * 100)
+        if abs(tr - 1) < 1e-7:  # documented defaults A -> 0, d -> 0: the constant polynomial k has mean k and no variance
+            got = _real(pr.call("poly_quad_expectation", None, None, a["k0"], phi=a["pq_phi"]), "fock.poly_quad_expectation")
+            _cmp("fock.poly_quad_expectation.constant", got, (a["k0"], 0.0), 1e-6, "poly_quad_expectation(None, None, k)")
         pr.labels.add("fock_polyquad")
 
     # ---- Wigner function ----------------------------------------------------------------------
@@ -1184,6 +1229,22 @@ def method_args(draw, n, pat_max=3):
     }
 
 
+def hbar_call(hbar):
+    """value of the GLOBAL sf.hbar while the methods are called.  A state object keeps "the value of hbar used in the generation of the
+    state" (BaseState.hbar); its answers may not depend on what the global is changed to afterwards.  1/3 of the cases change it."""
+    others = [x for x in HBARS if x != hbar]
+    return st.integers(0, 5).map(lambda i: float(hbar) if i < 4 else float(others[i - 4]))
+
+
+def _set_call_hbar(case, labels):
+    import strawberryfields as sf
+
+    hc = float(case.get("hbar_call", case["hbar"]))
+    if hc != float(case["hbar"]):
+        labels.add("global_hbar_changed_after_construction")
+    sf.hbar = hc
+
+
 @st.composite
 def tri_case(draw):
     n = draw(st.sampled_from([1, 2, 2, 3, 3]))
@@ -1202,7 +1263,7 @@ def tri_case(draw):
         V = O @ V @ O.T
         V = (V + V.T) / 2
         kind += "+mixed_modes"
-    case = {"n": n, "hbar": hbar, "kind": kind, "energy": energy, "disp": disp, "mu2": mu, "V2": V.tolist()}
+    case = {"n": n, "hbar": hbar, "hbar_call": draw(hbar_call(hbar)), "kind": kind, "energy": energy, "disp": disp, "mu2": mu, "V2": V.tolist()}
     case.update(draw(method_args(n, 3 if n < 3 else 2)))
     return case
 
@@ -1335,6 +1396,9 @@ def _check_tri(ctx, case, soft):
     if corr > 1e-3:
         labels.add("correlated")
     nontrivial = n >= 2 and corr > 1e-3 and (len(modes) < n or modes != list(range(n)))
+    if pure and len(modes) < n:  # the two branches of BaseGaussianState.reduced_dm for a pure state
+        ii = o.idx(sorted(modes))
+        labels.add("pure_state_subset_" + ("pure" if abs(np.linalg.det(V2[np.ix_(ii, ii)]) - 1) < 1e-9 else "mixed"))
 
     # ---- oracle data shared by the representations ---------------------------------------------------
     D = _choose_cutoff(mu, V, n, h)
@@ -1365,6 +1429,7 @@ def _check_tri(ctx, case, soft):
     a["fx"] = {"tol": TIGHT, "red": red, "prob_pat": float(rho[tuple(x for q in pat for x in (q, q))].real), "prob_vac": float(rho[(0,) * (2 * n)].real),
                "full_small": rho[(slice(0, cs),) * (2 * n)], "probs_small": fockref.probs(rho, n)[(slice(0, cs),) * n],
                "parity_dist": (float(np.sum(sgn * pd_)), max(0.0, 1.0 - float(np.sum(pd_))))}
+    a["fx"]["red10"] = lambda m: gauss_tensor(mu[[m, m + n]], V[np.ix_([m, m + n], [m, m + n])], 10, h)
     ot = a["other"]
     a["other_ket"] = np.asarray(state_vector(ot[0], ot[1], cutoff=D, hbar=h, normalize=False, check_purity=False)).ravel()
     k_act = len({int(i) % n for i in np.nonzero(a["A"])[0]} | {int(i) % n for i in np.nonzero(a["d"])[0]})
@@ -1383,6 +1448,7 @@ def _check_tri(ctx, case, soft):
     cross = edge < EDGE_MAX
     if cross:
         labels.add("cross_fock")
+    _set_call_hbar(case, labels)
     ctx.note(case, nontrivial=nontrivial, labels=sorted(labels))
 
     which = case.get("reps", "GBFK")  # replay files may focus on one representation; generated cases check all
@@ -1401,7 +1467,7 @@ def _check_tri(ctx, case, soft):
         if cross:
             _cross("gaussian_vs_" + REPNAME[rep], RG, RF, lambda key: _cross_tol(key, edge, tail, h), edge)
     for lb in sorted(labels):
-        if lb.startswith(("m:", "rep:")) or lb in ("unsorted_rejected", "squeezing_judged", "fock_polyquad"):
+        if lb.startswith(("m:", "rep:")) or lb in ("unsorted_rejected", "squeezing_judged", "fock_polyquad", "int_mode_arg", "default_cutoff"):
             ctx.label(lb)
 
 
@@ -1440,7 +1506,7 @@ def fock_case(draw):
             occ = draw(st.lists(st.integers(0, top), min_size=n, max_size=n))
             comps.append([occ, draw(gen.fl(-1.0, 1.0)), draw(gen.fl(-1.0, 1.0))])
         terms.append(comps)
-    case = {"n": n, "D": D, "hbar": hbar, "terms": terms, "q": draw(gen.fl(0.05, 0.95))}
+    case = {"n": n, "D": D, "hbar": hbar, "hbar_call": draw(hbar_call(hbar)), "terms": terms, "q": draw(gen.fl(0.05, 0.95))}
     case.update(draw(method_args(n, min(3, D - 1))))
     return case
 
@@ -1506,6 +1572,7 @@ def _check_fock(ctx, case):
     reps = [Probe(BaseFockState(rho.copy(), n, False, D), "F", labels)]
     if len(kets) == 1:
         reps.append(Probe(BaseFockState(kets[0].copy(), n, True, D), "K", labels))
+    _set_call_hbar(case, labels)
     ctx.note(case, nontrivial=nontrivial, labels=sorted(labels))
     Rs = []
     for pr in reps:
@@ -1528,7 +1595,7 @@ def _check_fock(ctx, case):
 def cat_case(draw):
     n = draw(st.integers(1, 2))
     hbar = draw(st.sampled_from(HBARS))
-    case = {"n": n, "hbar": hbar, "a": draw(gen.fl(0.3, 1.3)), "theta": draw(gen.angle()),
+    case = {"n": n, "hbar": hbar, "hbar_call": draw(hbar_call(hbar)), "a": draw(gen.fl(0.3, 1.3)), "theta": draw(gen.angle()),
             "cphi": draw(st.one_of(st.sampled_from([0.0, gen.PI]), gen.fl(0.0, 2 * gen.PI))), "catpos": draw(st.integers(0, n - 1))}
     if n == 2:
         kind, V = draw(cov_low(1))
@@ -1615,6 +1682,7 @@ def _check_cat(ctx, case, soft):
                "parity_dist": (float(np.sum(sgn * pd_)), 1e-7)}
     xp = _xpxp(n)
     B = Probe(BaseBosonicState((o.mus[:, xp] / np.sqrt(h / 2), o.Vs[:, xp][:, :, xp] / (h / 2), o.w.copy()), n, 4), "B", labels)
+    _set_call_hbar(case, labels)
     ctx.note(case, nontrivial=True, labels=sorted(labels))
     R = {}
     check_ps_object(B, o, a, R)
@@ -1634,7 +1702,176 @@ def _check_cat(ctx, case, soft):
     _cmp("bosonic_vs_fock_oracle.fidelity_coherent", R["fidelity_coherent"], fk_fid_product(rho, n, [coh_vec(al, D) for al in a["alphas"]]), tol("fidelity_coherent"))
     _cmp("bosonic_vs_fock_oracle.fidelity_vacuum", R["fidelity_vacuum"], float(rho[(0,) * (2 * n)].real), tol("fidelity_vacuum"))
     for lb in sorted(labels):
-        if lb.startswith(("m:", "rep:")) or lb in ("unsorted_rejected",):
+        if lb.startswith(("m:", "rep:")) or lb in ("unsorted_rejected", "int_mode_arg", "default_cutoff"):
+            ctx.label(lb)
+
+
+# =================================================================================================
+# sub-check bosonic_mix: a statistical mixture of 2..3 DIFFERENT Gaussian states (own covariance, own means, own
+# inter-mode correlations per weight) as one BaseBosonicState.  Every per-weight loop of the class (covs[i], mus[i],
+# weights[i]) is exercised with terms that differ in every ingredient; the cat state has four identical covariances
+# and a product partner, the one-weight states of gauss_tri have no sum at all.
+# =================================================================================================
+MIX_D = {1: 14, 2: 9, 3: 6}
+
+
+@st.composite
+def mix_case(draw):
+    n = draw(st.sampled_from([1, 2, 2, 3]))
+    hbar = draw(st.sampled_from(HBARS))
+    K = draw(st.sampled_from([2, 2, 3]))
+    share = draw(st.sampled_from(["none", "none", "none", "means", "cov"]))  # only the covariances / only the means differ
+    comps = []
+    for j in range(K):
+        kind, V = draw(cov_low(n))
+        V = np.asarray(V)
+        if n >= 2 and draw(st.integers(0, 3)) > 0:
+            O = gen.orth_symplectic(draw(gen.unitary(n, ["haar", "orth", "haar"]))[1])
+            V = O @ V @ O.T
+            V = (V + V.T) / 2
+            kind += "+mixed_modes"
+        mu = [draw(gen.fl(-0.8, 0.8)) for _ in range(2 * n)]
+        if j > 0 and share == "means":
+            mu = comps[0]["mu2"]
+        if j > 0 and share == "cov":
+            kind, V = comps[0]["kind"], np.asarray(comps[0]["V2"])
+        comps.append({"kind": kind, "q": draw(gen.fl(0.2, 1.0)), "mu2": list(mu), "V2": V.tolist()})
+    case = {"n": n, "hbar": hbar, "hbar_call": draw(hbar_call(hbar)), "share": share, "comps": comps}
+    case.update(draw(method_args(n, 3 if n < 3 else 2)))
+    return case
+
+
+def _mix_grids(o, n):
+    """Simpson grids for a mixture: the range covers +-6.5 sigma of every term, the step resolves the narrowest term
+    (1/5 of its marginal, 1/4 of its conditional width); evaluation points: +-2.5 sigma of the whole mixture"""
+    out = {}
+    for m in range(n):
+        lo, hi, st_ = [np.inf, np.inf], [-np.inf, -np.inf], [np.inf, np.inf]
+        for mu, V in zip(np.real(o.mus), np.real(o.Vs)):
+            vx, vp, c = V[m, m], V[m + n, m + n], V[m, m + n]
+            det = vx * vp - c * c
+            for ax, (mean, var, cond) in enumerate(((mu[m], vx, det / vp), (mu[m + n], vp, det / vx))):
+                lo[ax] = min(lo[ax], mean - 6.5 * np.sqrt(var))
+                hi[ax] = max(hi[ax], mean + 6.5 * np.sqrt(var))
+                st_[ax] = min(st_[ax], 0.2 * np.sqrt(var), 0.25 * np.sqrt(cond))
+        g = {}
+        for ax, (nm_, phi) in enumerate((("x", 0.0), ("p", np.pi / 2))):
+            mean, var = o.quad(m, phi)
+            k = int(np.ceil((hi[ax] - lo[ax]) / st_[ax]))
+            k = min(k + 1 - k % 2, 801)
+            g[nm_ + "c"] = mean + np.sqrt(var) * np.linspace(-2.5, 2.5, 9)
+            g[nm_ + "f"] = np.linspace(lo[ax], hi[ax], k)
+        out[m] = g
+    return out
+
+
+def check_mix(ctx, case):
+    import strawberryfields as sf
+
+    old = sf.hbar
+    try:
+        sf.hbar = case["hbar"]
+        try:
+            _check_mix(ctx, case)
+        except _Fail as f:
+            return ctx.fail(f.sig, f.detail)
+        except _Crash as c:
+            return ctx.crash(c.exc, c.what)
+        return None
+    finally:
+        sf.hbar = old
+
+
+def _check_mix(ctx, case):
+    from strawberryfields.backends.states import BaseBosonicState
+
+    n, h = int(case["n"]), float(case["hbar"])
+    comps = case["comps"]
+    K = len(comps)
+    q = np.array([float(c["q"]) for c in comps])
+    w = q / np.sum(q)
+    mus2 = np.array([c["mu2"] for c in comps], float)
+    Vs2 = np.array([c["V2"] for c in comps], float)
+    mus, Vs = mus2 * np.sqrt(h / 2), Vs2 * (h / 2)
+    o = PS(w, mus, Vs, h)
+    a = _decode_args(case, n, h)
+    soft = a["soft"] = []
+    a["pure"] = None
+    modes = a["modes"]
+    D = MIX_D[n]
+    cs = {1: D, 2: 6, 3: 4}[n]
+    a["D"], a["cs"] = D, cs
+    rho = sum(w[k] * gauss_tensor(mus[k], Vs[k], D, h) for k in range(K))
+    tail = 1.0 - fockref.trace(rho, n)
+    edge = max(0.0, 1.0 - float(np.sum(fockref.probs(rho, n)[(slice(0, D - 2),) * n])))
+    labels = {"hbar:%s" % h, "n:%d" % n, "mix", "mix:K%d" % K, "mix_share:" + str(case.get("share", "none"))}
+    if len(modes) < n:
+        labels.add("subset")
+    if modes != sorted(modes):
+        labels.add("reordered")
+    dV = max(float(np.max(np.abs(Vs2[k] - Vs2[0]))) for k in range(1, K))
+    dM = max(float(np.max(np.abs(mus2[k] - mus2[0]))) for k in range(1, K))
+    if dV > 1e-3:
+        labels.add("mix_distinct_covs")
+    if dM > 1e-3:
+        labels.add("mix_distinct_means")
+    corr = max(_corr(Vs[k], n) for k in range(K)) if n > 1 else 0.0
+    if corr > 1e-3:
+        labels.add("mix_correlated")
+    red_cache = {}
+
+    def red(md):
+        key = tuple(md)
+        if key not in red_cache:
+            r = o.reduced(md)
+            red_cache[key] = sum(w[k] * gauss_tensor(np.real(r.mus[k]), np.real(r.Vs[k]), D, h) for k in range(K))
+        return red_cache[key]
+
+    rs = red(sorted(modes))
+    pd_ = fockref.probs(rs, len(modes))
+    sgn = np.ones(pd_.shape)
+    for ax in range(len(modes)):
+        sh = [1] * len(modes)
+        sh[ax] = D
+        sgn = sgn * ((-1.0) ** np.arange(D)).reshape(sh)
+    pat = a["pat"]
+    a["fx"] = {"tol": TIGHT, "red": red, "prob_pat": float(rho[tuple(x for q_ in pat for x in (q_, q_))].real), "prob_vac": float(rho[(0,) * (2 * n)].real),
+               "full_small": rho[(slice(0, cs),) * (2 * n)],
+               "parity_dist": (float(np.sum(sgn * pd_)), max(0.0, 1.0 - float(np.sum(pd_))))}
+    a["fx"]["red10"] = lambda m: sum(w[k] * gauss_tensor(mus[k][[m, m + n]], Vs[k][np.ix_([m, m + n], [m, m + n])], 10, h) for k in range(K))
+    a["quadgrid"] = _mix_grids(o, n)
+    xp = _xpxp(n)
+    B = Probe(BaseBosonicState((mus2[:, xp].astype(complex), Vs2[:, xp][:, :, xp].astype(complex), w.astype(complex)), n, K), "B", labels)
+    cross = edge < EDGE_MAX
+    if cross:
+        labels.add("mix_cross_fock")
+    _set_call_hbar(case, labels)
+    ctx.note(case, nontrivial=dV > 1e-3 or dM > 1e-3, labels=sorted(labels))
+    R = {}
+    check_ps_object(B, o, a, R)
+    for sg, dt in soft:
+        raise _Fail(sg, dt)
+    if cross:  # the bosonic answers against exact Fock-space formulas on the weighted sum of the thewalrus tensors
+        def tol(key):
+            return _cross_tol(key, edge, tail, h)
+
+        for m in modes:
+            t = tol("mean_photon")
+            exp = fk_number(rho, n, [m])
+            _cmp("bosonic_vs_fock_oracle.mean_photon.mean", R["mean_photon", m][0], exp[0], t[0], "mixture: mean_photon(%d)[0]" % m)
+            _cmp("bosonic_vs_fock_oracle.mean_photon.var", R["mean_photon", m][1], exp[1], t[1], "mixture: mean_photon(%d)[1]" % m)
+            t = tol("quad_expectation")
+            exp = fk_quad(rho, n, m, a["phi"], h)
+            _cmp("bosonic_vs_fock_oracle.quad_expectation.mean", R["quad_expectation", m][0], exp[0], t[0], "mixture: quad_expectation(%d)[0]" % m)
+            _cmp("bosonic_vs_fock_oracle.quad_expectation.var", R["quad_expectation", m][1], exp[1], t[1], "mixture: quad_expectation(%d)[1]" % m)
+        _cmp("bosonic_vs_fock_oracle.parity_expectation", R["parity_expectation", tuple(sorted(modes))], fk_parity(rho, n, modes), tol("parity_expectation"))
+        r1 = fockref.reduce_dm(rho, n, [modes[0]])
+        expw = np.array([[fk_wigner_point(r1, x, p_, h) for x in a["xs"]] for p_ in a["ps"]])
+        _cmp("bosonic_vs_fock_oracle.wigner", R["wigner"], expw, tol("wigner"), "mixture: wigner(%d)" % modes[0])
+        _cmp("bosonic_vs_fock_oracle.fidelity_coherent", R["fidelity_coherent"], fk_fid_product(rho, n, [coh_vec(al, D) for al in a["alphas"]]), tol("fidelity_coherent"))
+        _cmp("bosonic_vs_fock_oracle.purity", B.call("purity"), fockref.purity(rho, n), tol("fidelity"), "mixture: purity() vs tr rho^2")
+    for lb in sorted(labels):
+        if lb.startswith(("m:", "rep:")) or lb in ("unsorted_rejected", "int_mode_arg", "default_cutoff"):
             ctx.label(lb)
 
 
@@ -1736,55 +1973,137 @@ def check_samples(ctx, case):
 # =================================================================================================
 # sub-check backend_state_order: the state returned for a requested subset / order of modes
 # =================================================================================================
+BSO_ALPHABET = ["BSgate", "BSgate", "Rgate", "S2gate"]
+
+
 @st.composite
 def bso_case(draw):
+    """one circuit, one request; the check runs it on the gaussian AND the bosonic backend (cheap) and on one fock flavour, so that every
+    variant reaches every backend.state implementation at every seed (a drawn backend x a drawn variant is too sparse for 50 examples)"""
     n = draw(st.sampled_from([3, 3, 4]))
     preps = []
     for j in range(n):
         preps.append(["DisplacedSqueezed", [draw(gen.fl(0.1, 0.5)), draw(gen.angle()), draw(gen.fl(-0.3, 0.3)), draw(gen.angle())], [j], {}])
-    gates = draw(gen.op_list(n, ["BSgate", "BSgate", "Rgate", "S2gate"], "fock", 1, 4))
+    gates = draw(gen.op_list(n, BSO_ALPHABET, "fock", 1, 4))
     k = draw(st.integers(1, n))
     order = list(draw(st.permutations(list(range(n))))[:k])
-    return {"n": n, "ops": preps + gates, "order": order, "backend": draw(st.sampled_from(["fock_pure", "fock_mixed", "gaussian", "bosonic", "fock_pure"])),
+    fock = draw(st.sampled_from(["fock_pure", "fock_mixed"]))
+    case = {"n": n, "ops": preps + gates, "order": order, "backend": fock,
+            "backends": ["gaussian", "bosonic", "fock_pure", "fock_mixed"] if n == 3 else ["gaussian", "bosonic", fock],
             "via": draw(st.sampled_from(["run", "backend"])), "phi": draw(gen.angle())}
+    variant = draw(st.sampled_from(["plain", "del", "int", "segments", "del"]))
+    if variant == "del":
+        # a register with a gap: one mode is deleted (Del = partial trace), more gates may follow on the survivors; `order` indexes the
+        # n-1 remaining modes (comment in GaussianBackend.state: "``modes`` indexes the active modes"; same in FockBackend.state)
+        dm = draw(st.integers(0, n - 1))
+        active = [m for m in range(n) if m != dm]
+        after = draw(gen.op_list(n - 1, BSO_ALPHABET, "fock", 0, 2))
+        for sp in after:
+            sp[2] = [active[m] for m in sp[2]]
+        case["del"], case["ops_after"] = dm, after
+        k = draw(st.integers(1, n - 1))
+        case["order"] = list(draw(st.permutations(list(range(n - 1))))[:k])
+        if draw(st.integers(0, 3)) == 0:
+            case["order"] = None
+    elif variant == "int":
+        case["order"], case["int_mode"], case["via"] = order[:1], True, "backend"  # BaseBackend.state: "modes (int or Sequence[int] or None)"
+    elif variant == "segments":
+        case["split"] = draw(st.integers(1, len(case["ops"]) - 1))  # two programs on one engine, the state is requested after the second
+    # a second request on the same engine whose order is a 3- or 4-cycle (a permutation that is not its own inverse: confusing the
+    # permutation with its inverse is invisible for transpositions); a drawn subset / order of 3..4 modes is a cycle too rarely
+    nact = n - ("del" in case)
+    if nact >= 3:
+        keep = sorted(draw(st.permutations(list(range(nact))))[: draw(st.integers(3, nact))])
+        r = draw(st.sampled_from([1, len(keep) - 1]))
+        case["order2"] = [keep[(i + r) % len(keep)] for i in range(len(keep))]
+    return case
+
+
+def _bso_mode_data(st_, i, phi):
+    return np.concatenate([np.array(st_.mean_photon(i), float).ravel(), np.array(st_.quad_expectation(i, phi), float).ravel(),
+                           np.array(st_.quad_expectation(i, phi + 1.0), float).ravel()])
+
+
+def _bso_request(case, be):
+    """(order, int_mode) as asked of backend `be`.  Two input classes are withheld (the case file key "no_exclusions" re-enables them):"""
+    order, int_mode = case["order"], bool(case.get("int_mode", False))
+    if case.get("no_exclusions"):
+        return order, int_mode
+    # finding F71 (fixed): GaussianBackend.state(modes=<int>) raised "zero-dimensional arrays cannot be concatenated"
+    # (BaseBackend.state documents int; the fock and bosonic backends accept it): the gaussian backend is asked with the one-element list
+    # (finding F71, fixed: the exclusion is lifted)
+    # finding F72 (fixed: a deleted index is refused now; the convention difference stays, see C08 ASSUMPTIONS): BosonicBackend.state(modes=[..]) after a Del indexes the RAW internal modes (returned the
+    # deleted mode as a vacuum mode labelled q[<deleted>]) while the gaussian and fock backends index the remaining modes: only modes=None there
+    if be == "bosonic" and case.get("del") is not None:
+        order = None
+    return order, int_mode
+
+
+def _bso_split(case, be):
+    # open finding F10 (listed under C09): BosonicBackend.run_prog calls init_circuit(prog) for every program, so a second eng.run() starts
+    # from the vacuum instead of continuing (gaussian / fock continue).  Not a statement of C16: the bosonic backend gets the circuit in one program
+    if be == "bosonic" and not case.get("no_exclusions"):
+        return None
+    return case.get("split")
 
 
 def check_bso(ctx, case):
     """BaseBackend.state: 'the returned state contains the requested modes in the given order' (bosonic documents ascending order); whatever
-    the order, the labels (mode_names) and the data of the returned state must belong together and equal the full state's data for that mode"""
-    import strawberryfields as sf
-    from vf import spec
+    the order, the labels (mode_names) and the data of the returned state must belong together and equal the full state's data for that mode.
+    Variants: a deleted mode (gap in the register; the reference is the same circuit without the Del: deleting a mode is a partial trace),
+    an int for `modes`, two program segments on one engine, a second request whose order is a 3-/4-cycle; afterwards backend.state() must
+    still return the full state (a state request does not change the simulator)."""
+    n = case["n"]
+    dm, after, split = case.get("del"), case.get("ops_after", []), case.get("split")
+    backends = list(case.get("backends", [case["backend"]]))
+    labels = ["via:" + case["via"]]
+    nreq = 0
+    for be in backends:
+        order, int_mode = _bso_request(case, be)
+        reqs = [list(range(n - (dm is not None))) if order is None else list(order)]
+        if case.get("order2") and not (be == "bosonic" and dm is not None and not case.get("no_exclusions")):
+            reqs.append(list(case["order2"]))
+        labels.append("backend_state:" + be)
+        if order is None:
+            labels.append("bso:modes_none")
+        if int_mode:
+            labels.append("bso:int_mode")
+        for req in reqs:
+            nreq = max(nreq, len(req))
+            if req != sorted(req):
+                labels.append("reordered")
+            rank = list(np.argsort(req))
+            if [rank[r] for r in rank] != list(range(len(req))):
+                labels.append("non_involutive_order")
+                labels.append("non_involutive_order:" + be)
+    if dm is not None:
+        labels.append("bso:del")
+        if after:
+            labels.append("bso:gates_after_del")
+    if split is not None:
+        labels.append("bso:segments")
+    ctx.note(case, nontrivial=nreq >= 2 or dm is not None, labels=sorted(set(labels)))
+    for be in backends:
+        res = _check_bso_one(ctx, case, be)
+        if res is not None:
+            return res
+    return None
 
-    n, order, be = case["n"], case["order"], case["backend"]
-    labels = ["backend_state:" + be, "via:" + case["via"]]
-    if order != sorted(order):
-        labels.append("reordered")
-    rank = list(np.argsort(order))
-    if [rank[r] for r in rank] != list(range(len(order))):
-        labels.append("non_involutive_order")
-    opts = {"cutoff_dim": 6, "pure": be == "fock_pure"} if be.startswith("fock") else {}
-    try:
-        eng = sf.Engine(be.split("_")[0], backend_options=opts)
-        prog = spec.build_program(n, case["ops"])
-        if case["via"] == "run":
-            full = sf.Engine(be.split("_")[0], backend_options=opts).run(spec.build_program(n, case["ops"])).state
-            sub = eng.run(prog, modes=list(order)).state
-        else:
-            full = eng.run(prog).state
-            sub = eng.backend.state(modes=list(order))
-    except Exception as exc:  # pylint: disable=broad-except
-        ctx.note(case, True, labels)
-        return ctx.crash(exc, "state_modes." + be)
-    ctx.note(case, nontrivial=len(order) >= 2, labels=labels)
-    if sub.num_modes != len(order):
-        return ctx.fail("backend_state.num_modes.%s" % be, "state(modes=%s) has %d modes" % (order, sub.num_modes))
+
+def _bso_verify(ctx, case, be, sub, full, order, active):
+    """labels and per-mode data of the state `sub` returned for modes=order (None: everything) against the full state"""
+    dm = case.get("del")
+    req = list(range(len(active))) if order is None else list(order)
+    tag = "state(modes=%s)%s" % (order, "" if dm is None else " after Del q[%d]" % dm)
+    if sub.num_modes != len(req):
+        return ctx.fail("backend_state.num_modes.%s" % be, "%s has %d modes" % (tag, sub.num_modes))
     try:
         names = [int(nm[2:-1]) for nm in [sub.mode_names[i] for i in range(sub.num_modes)]]
     except Exception:  # pylint: disable=broad-except
         return ctx.fail("backend_state.mode_names.%s" % be, "unparsable mode names %r" % (sub.mode_names,))
-    want = sorted(order) if be == "bosonic" else list(order)
+    want = [active[i] for i in (sorted(req) if be == "bosonic" else req)]
     if names != want:
-        return ctx.fail("backend_state.mode_names.%s" % be, "state(modes=%s) is labelled %s, documented order is %s" % (order, names, want))
+        return ctx.fail("backend_state.mode_names.%s" % be, "%s is labelled %s, documented order is %s" % (tag, names, want))
     for i, m in enumerate(names):
         for what, fa, fb in (
             ("mean_photon", lambda: sub.mean_photon(i), lambda: full.mean_photon(m)),
@@ -1796,8 +2115,8 @@ def check_bso(ctx, case):
             except Exception as exc:  # pylint: disable=broad-except
                 return ctx.crash(exc, "state_modes.%s.%s" % (be, what))
             if float(np.max(np.abs(a - b))) > 1e-8 * (1 + float(np.max(np.abs(b)))):
-                return ctx.fail("backend_state.data_under_wrong_label.%s" % be, "state(modes=%s): position %d is labelled q[%d] but its %s is %s; mode %d of the full state has %s" % (
-                    order, i, m, what, np.round(a, 6).tolist(), m, np.round(b, 6).tolist()))
+                return ctx.fail("backend_state.data_under_wrong_label.%s" % be, "%s: position %d is labelled q[%d] but its %s is %s; mode %d of the full state has %s" % (
+                    tag, i, m, what, np.round(a, 6).tolist(), m, np.round(b, 6).tolist()))
     # one two-mode correlation: <n_i n_j> (not offered by the bosonic state)
     if len(names) >= 2 and be != "bosonic":
         try:
@@ -1806,8 +2125,67 @@ def check_bso(ctx, case):
         except Exception as exc:  # pylint: disable=broad-except
             return ctx.crash(exc, "state_modes.%s.number_expectation" % be)
         if abs(a - b) > 1e-8 * (1 + abs(b)):
-            return ctx.fail("backend_state.correlation_under_wrong_label.%s" % be, "state(modes=%s): <n n> of positions (0, %d) = %.8g, of modes (%d, %d) in the full state = %.8g" % (
-                order, len(names) - 1, a, names[0], names[-1], b))
+            return ctx.fail("backend_state.correlation_under_wrong_label.%s" % be, "%s: <n n> of positions (0, %d) = %.8g, of modes (%d, %d) in the full state = %.8g" % (
+                tag, len(names) - 1, a, names[0], names[-1], b))
+    return None
+
+
+def _check_bso_one(ctx, case, be):
+    import strawberryfields as sf
+    from vf import spec
+
+    n = case["n"]
+    dm, after, split = case.get("del"), case.get("ops_after", []), _bso_split(case, be)
+    order, int_mode = _bso_request(case, be)
+    active = [m for m in range(n) if m != dm]
+    opts = {"cutoff_dim": 6, "pure": be == "fock_pure"} if be.startswith("fock") else {}
+    arg = None if order is None else (int(order[0]) if int_mode else list(order))
+    ops_run = list(case["ops"]) + ([["Del", [], [dm], {}]] if dm is not None else []) + list(after)
+    try:
+        eng = sf.Engine(be.split("_")[0], backend_options=opts)
+        full = sf.Engine(be.split("_")[0], backend_options=opts).run(spec.build_program(n, list(case["ops"]) + list(after))).state
+        if split is not None:
+            eng.run(spec.build_program(n, ops_run[:split]))
+            prog = spec.build_program(n, ops_run[split:])
+        else:
+            prog = spec.build_program(n, ops_run)
+        if case["via"] == "run":
+            sub = eng.run(prog, modes=arg).state
+        else:
+            eng.run(prog)
+            sub = eng.backend.state(modes=arg)
+    except Exception as exc:  # pylint: disable=broad-except
+        return ctx.crash(exc, "state_modes." + be)
+    res = _bso_verify(ctx, case, be, sub, full, order, active)
+    if res is not None:
+        return res
+    # a state request must not change the simulator: the same request again and the request for everything still give the same data
+    try:
+        rep_ = eng.backend.state(modes=arg)
+        again = eng.backend.state()
+        bad = None
+        if [rep_.mode_names[i] for i in range(rep_.num_modes)] != [sub.mode_names[i] for i in range(sub.num_modes)]:
+            bad = "the second state(modes=%s) is labelled %r, the first %r" % (order, rep_.mode_names, sub.mode_names)
+        elif again.num_modes != len(active) or [again.mode_names[i] for i in range(again.num_modes)] != ["q[%d]" % m for m in active]:
+            bad = "state() after state(modes=%s) is labelled %r, active modes %s" % (order, again.mode_names, active)
+        elif not _same(rep_.data, sub.data):
+            bad = "the second state(modes=%s) does not carry the same data as the first" % (order,)
+        else:
+            for i, m in sorted({(0, active[0]), (len(active) - 1, active[-1])}):
+                a, b = _bso_mode_data(again, i, case["phi"]), _bso_mode_data(full, m, case["phi"])
+                if float(np.max(np.abs(a - b))) > 1e-8 * (1 + float(np.max(np.abs(b)))):
+                    bad = "state() after state(modes=%s): q[%d] has (mean_photon, quad..) %s, before %s" % (order, m, np.round(a, 6).tolist(), np.round(b, 6).tolist())
+    except Exception as exc:  # pylint: disable=broad-except
+        return ctx.crash(exc, "state_modes.%s.second_request" % be)
+    if bad:
+        return ctx.fail("backend_state.changed_by_state_request.%s" % be, bad)
+    # second request on the same engine: a cyclic order
+    if case.get("order2") and not (be == "bosonic" and dm is not None and not case.get("no_exclusions")):
+        try:
+            sub2 = eng.backend.state(modes=list(case["order2"]))
+        except Exception as exc:  # pylint: disable=broad-except
+            return ctx.crash(exc, "state_modes.%s.cyclic_order" % be)
+        return _bso_verify(ctx, case, be, sub2, full, list(case["order2"]), active)
     return None
 
 
@@ -1818,7 +2196,10 @@ SUBS = [
         budget={"quick": 100, "thorough": 1500}, rule="random low-photon kets / two-term mixtures as fock objects (ket and tensor data) vs exact Fock formulas"),
     Sub("bosonic_cat", check=check_cat, strategy=lambda ctx: cat_case(), examples={"quick": 200, "thorough": 2000}, shards={"quick": 1, "thorough": 8},
         budget={"quick": 100, "thorough": 1500}, rule="cat state (4 complex-weighted Gaussians), alone or beside a Gaussian mode, vs four-Gaussian formulas and the exact ket"),
-    Sub("backend_state_order", check=check_bso, strategy=lambda ctx: bso_case(), examples={"quick": 50, "thorough": 1500}, shards={"quick": 3, "thorough": 16},
+    Sub("bosonic_mix", check=check_mix, strategy=lambda ctx: mix_case(), examples={"quick": 250, "thorough": 2500}, shards={"quick": 1, "thorough": 8},
+        budget={"quick": 100, "thorough": 1500}, rule="mixture of 2..3 different Gaussian states (own covariance, means, correlations per weight; 1..3 modes) as one "
+        "bosonic object vs weighted phase-space formulas and the weighted sum of the thewalrus tensors"),
+    Sub("backend_state_order", check=check_bso, strategy=lambda ctx: bso_case(), examples={"quick": 40, "thorough": 1200}, shards={"quick": 3, "thorough": 16},
         budget={"quick": 100, "thorough": 900}, rule="eng.run(prog, modes=order) / backend.state(modes=order) on fock (pure, mixed), gaussian, bosonic for any subset and "
         "order of 3..4 modes (3-cycles included): labels follow the documented order and per-mode data / a two-mode correlation equal those of the full state"),
     Sub("samples", check=check_samples, strategy=lambda ctx: samples_case(), examples={"quick": 1500, "thorough": 20000}, shards={"quick": 1, "thorough": 4},
@@ -1832,6 +2213,8 @@ MANIFEST = {
              "the representation-specific code. Every public observable is compared with an oracle typed in the harness (moments of quadrature polynomials with "
              "operator-ordering term, parity, overlaps, Wigner integrals, partial traces), with the other methods of the same object, and with the same method of "
              "the other representations under a truncation guard; mode subsets and orders are generator axes; every call is made twice and the state's arrays are "
-             "compared bit-wise afterwards. utils.post_processing is compared with direct numpy formulas. Exploration only: <= 3 modes, cutoff <= 22."),
+             "compared bit-wise afterwards. Mixtures of different Gaussian states exercise the weighted sums of the bosonic class; backend.state is asked for subsets, "
+             "cyclic orders, after a mode deletion, with an int, twice; the global hbar is changed after construction. "
+             "utils.post_processing is compared with direct numpy formulas. Exploration only: <= 3 modes (backend.state: 4), cutoff <= 22."),
     "note": "trusted: numpy/scipy, thewalrus.quantum.density_matrix/state_vector as Fock representation of Gaussian moments (layout self-tested)",
 }
